@@ -119,7 +119,10 @@ def run_history(src, h, engine):
     if h["mode"] == "ground_all":
         rng.shuffle(qs)
         rng.shuffle(evs)
-        target = engine.ground_all(db, queries=qs, evidence=[(a, v) for a, v in evs])
+        # h["propagate"]: the evidence is grounded first and propagated (LogicFormula.propagate / engine.propagate_evidence),
+        # the queries are grounded afterwards against the propagated table
+        target = engine.ground_all(db, queries=qs, evidence=[(a, v) for a, v in evs],
+                                   **({"propagate_evidence": True} if h.get("propagate") else {}))
         r = get_evaluatable().create_from(target).evaluate()
         return {str(k): v for k, v in r.items()}
     out = {}
